@@ -34,6 +34,10 @@ pub enum Op {
     TilemapSweep(u32, u32),
     TilemapImage(u32, u32),
     DebugFmt,
+    /// A call whose argument is outside its documented range (the documentation says it
+    /// panics). Used only by C16 histories: the panic itself is the expected, repeatable outcome,
+    /// and it must leave the sprite exactly as usable as before.
+    OutOfRange(u32),
 }
 
 impl Op {
@@ -66,13 +70,14 @@ impl Op {
             Op::TilemapSweep(..) => "tilemap_sweep",
             Op::TilemapImage(..) => "tilemap_image",
             Op::DebugFmt => "debug_fmt",
+            Op::OutOfRange(..) => "out_of_range_call",
         }
     }
     pub fn to_json(&self) -> Value {
         let (a, s): (Vec<u32>, Option<&str>) = match self {
             Op::PaletteColor(a) | Op::LayerInfo(a) | Op::VisibleChain(a) | Op::FrameInfo(a)
             | Op::FrameImage(a) | Op::GetTag(a) | Op::ExtFileById(a) | Op::TilesetGet(a)
-            | Op::TilesetImage(a) => (vec![*a], None),
+            | Op::TilesetImage(a) | Op::OutOfRange(a) => (vec![*a], None),
             Op::CelInfo(a, b) | Op::CelImage(a, b) | Op::TileImage(a, b) | Op::Tilemap(a, b)
             | Op::TilemapSweep(a, b) | Op::TilemapImage(a, b) => (vec![*a, *b], None),
             Op::TilemapTile(a, b, c, d) => (vec![*a, *b, *c, *d], None),
@@ -121,6 +126,7 @@ impl Op {
             "tilemap_sweep" => Op::TilemapSweep(g(0), g(1)),
             "tilemap_image" => Op::TilemapImage(g(0), g(1)),
             "debug_fmt" => Op::DebugFmt,
+            "out_of_range_call" => Op::OutOfRange(g(0)),
             _ => return None,
         })
     }
@@ -573,6 +579,30 @@ pub fn exec(f: &AsepriteFile, op: &Op, c: &Costs) -> OpOutcome {
                 return OpOutcome::BadDims(format!("tilemap image {:?} canvas {:?}", im.dimensions(), (cw, ch)));
             }
             img(&mut d, im.width(), im.height(), im.as_raw());
+        }
+        Op::OutOfRange(k) => {
+            // each of these is documented to panic; the caller records the panic as the outcome
+            match k % 6 {
+                0 => d.u64(f.layer(nl).id() as u64),
+                1 => d.u64(f.frame(nf).id() as u64),
+                2 => d.byte(f.cel(nf, 0).is_empty() as u8),
+                3 => d.str(f.tag(f.num_tags()).name()),
+                4 => {
+                    let Some(t) = nth_tileset(f, 0) else { return OpOutcome::Skipped };
+                    let px = (t.tile_count() as u64).saturating_mul(t.tile_size().width() as u64).saturating_mul(t.tile_size().height() as u64);
+                    if px > c.cap {
+                        return OpOutcome::Skipped;
+                    }
+                    let im = t.tile_image(t.tile_count());
+                    d.u64(im.width() as u64);
+                }
+                _ => {
+                    if nf == 0 {
+                        return OpOutcome::Skipped;
+                    }
+                    d.byte(f.frame(0).layer(nl).is_empty() as u8)
+                }
+            }
         }
         Op::DebugFmt => {
             if c.debug > c.cap / 8 {
